@@ -268,9 +268,16 @@ int main(void)
 				exec_once(&op, &r2);
 				if (r2.bad[0] != '\0') {
 					r1 = r2;
-				} else if (!r1.timing && (r1.init_ret != r2.init_ret || r1.ret != r2.ret || r1.in_total != r2.in_total
+				} else if (r1.timing) {
+					// threaded decoder: the number of calls and the moment an error surfaces depend on thread timing;
+					// only a successful decode must give the same bytes
+					if (r1.ret == LZMA_STREAM_END && r2.ret == LZMA_STREAM_END && !r1.capped && !r2.capped
+							&& (r1.out_total != r2.out_total || r1.crc != r2.crc))
+						c04_bad(&r1, "result-depends-on-uninitialised-memory(mt):out=%" PRIu64 "/%" PRIu64 ",crc=%" PRIu32 "/%" PRIu32,
+								r1.out_total, r2.out_total, r1.crc, r2.crc);
+				} else if (r1.init_ret != r2.init_ret || r1.ret != r2.ret || r1.in_total != r2.in_total
 						|| r1.out_total != r2.out_total || r1.crc != r2.crc || r1.calls != r2.calls
-						|| r1.aux != r2.aux)) {
+						|| r1.aux != r2.aux) {
 					c04_bad(&r1, "result-depends-on-uninitialised-memory:ret=%d/%d,in=%" PRIu64 "/%" PRIu64 ",out=%" PRIu64
 							"/%" PRIu64 ",crc=%" PRIu32 "/%" PRIu32 ",calls=%" PRIu64 "/%" PRIu64,
 							r1.ret, r2.ret, r1.in_total, r2.in_total, r1.out_total, r2.out_total, r1.crc, r2.crc,
